@@ -459,6 +459,35 @@ def main(argv):
                              "(%.12g, %.12g) -> (%.12g, %.12g) through (%.12g, %.12g)" % (op, ang, orig[0].real, orig[0].imag, orig[1].real, orig[1].imag,
                              [("(%.9g, %.9g) -> (%.9g, %.9g), %g" % (x[0].real, x[0].imag, x[1].real, x[1].imag, x[2])) for x in arcs],
                              want[0].real, want[0].imag, want[1].real, want[1].imag, tmid.real, tmid.imag), dict(script="\n".join(sc)))
+        # ================= the arc made by create-radius inherits boundary condition and group of the lines it rounds (as the command says)
+        d = os.path.join(work, "radius")
+        os.makedirs(d)
+        lines = []
+        for kind in "meh":
+            pre = PRE[kind]
+            bp = {"m": '%saddboundprop("bX",0,0,0,0,0,0,0,0,0)', "e": '%saddboundprop("bX",1,0,0,0,0)', "h": '%saddboundprop("bX",0,300,0,0,0,0)'}[kind] % pre
+            sp = '%ssetsegmentprop("bX",0,1,0,5)' % pre if kind == "m" else '%ssetsegmentprop("bX",0,1,0,5,"<None>")' % pre
+            lines += ["newdocument(%d)" % DOC[kind], bp, "%saddnode(8,8)" % pre, "%saddnode(10,8)" % pre, "%saddnode(10,10)" % pre,
+                      "%saddsegment(8,8,10,8)" % pre, "%saddsegment(10,8,10,10)" % pre, "%sselectsegment(9,8)" % pre, "%sselectsegment(10,9)" % pre, sp,
+                      "%sclearselected()" % pre, "%screateradius(10,8,0.5)" % pre, '%ssaveas("r%s")' % (pre, femmio.EXT[kind])]
+        open(os.path.join(d, "s.lua"), "w").write("\n".join(lines) + "\n")
+        subprocess.run([os.path.join(build, "cfemm", "bin", "femmcli"), "--lua-script=s.lua"], cwd=d, stdout=subprocess.PIPE, stderr=subprocess.STDOUT,
+                       text=True, timeout=300, errors="replace")
+        for kind in "meh":
+            f = os.path.join(d, "r" + femmio.EXT[kind])
+            ck.case(("radius-inherits", kind), nontrivial=True)
+            if not os.path.exists(f):
+                ck.violation("edit-crash:createradius", "femmcli did not save the drawing after create-radius (%s)" % femmio.EXT[kind], dict(script="\n".join(lines)))
+                continue
+            g = femmio.read_problem(f)["geom"]
+            arcs = g.get("arcs", [])
+            segs = g.get("segs", [])
+            stats["radius_arcs_checked"] = stats.get("radius_arcs_checked", 0) + 1
+            if len(arcs) != 1 or any(int(r_[3]) != 1 for r_ in segs) or int(arcs[0][4]) != 1 or int(arcs[0][6]) != 5:
+                ck.violation("copy-keeps:createradius:" + kind, "create-radius on a corner of two lines that carry the boundary property 'bX' (index 1) and group 5: the saved "
+                             "%s file has the lines %s and the arc %s (columns of an arc: n0 n1 angle max-segment boundary hidden group ...) - the arc that rounds "
+                             "the corner does not carry the lines' boundary property and group" % (femmio.EXT[kind], [r_[:6] for r_ in segs], arcs[:2]),
+                             dict(script="\n".join(lines)))
     finally:
         shutil.rmtree(work, ignore_errors=True)
     ck.notes["input_distribution"] = stats
